@@ -19,10 +19,17 @@
  *      offsets, the 5.1 LFE channel two low tones); plus one-hot runs (one channel active, all others silent) on the
  *      (20 ms, top level, complexity 10, VBR) sub-grid.  quick: Fs {16,48} kHz, durations {2.5,5,10,20,60} ms, complexity 10;
  *      thorough: all 5 rates, all 9 durations, complexity {0,5,10}.
+ * parts hist / mshist (added after an independently seeded change showed that "application" is also reachable through a ctl): the
+ *      same measured run behind every <=1-step history — encoder created with application A, then one of 18 ctls
+ *      (OPUS_SET_APPLICATION x3 = all ordered pairs create -> ctl, OPUS_SET_EXPERT_FRAME_DURATION, OPUS_SET_FORCE_MODE x3,
+ *      OPUS_SET_BANDWIDTH x5, OPUS_SET_FORCE_CHANNELS x2, OPUS_SET_COMPLEXITY x2, OPUS_SET_SIGNAL x2) applied before the first frame,
+ *      after a prefix + OPUS_RESET_STATE (encoder and decoder), or mid-stream after a prefix. Refused ctls are counted, not run.
+ *      OPUS_GET_LOOKAHEAD is read AFTER the history and again after the run ("lookahead_changed_during_run" if they differ).
+ *      Same oracles; thresholds keyed by (history class, application in force, level, bandwidth, family) / (class, layout, app, bw).
  *
  * Oracles (all from the statement):
- *  (a) delay: the lag maximising the normalised input/output cross-correlation (summed over channels; searched from 4 ms below to
- *      5 ms above the reported value) equals OPUS_GET_LOOKAHEAD. Exactly (integer peak) for aperiodic broadband input (sweep,
+ *  (a) delay: the lag maximising the normalised input/output cross-correlation (summed over channels; searched from 5 ms below to
+ *      6 ms above the reported value) equals OPUS_GET_LOOKAHEAD. Exactly (integer peak) for aperiodic broadband input (sweep,
  *      band noise, clicks) when every packet in the analysed span is CELT-only; to within 0.1 ms (sub-sample peak by parabolic
  *      interpolation) when SILK / hybrid packets (resamplers) are in the path — the statement's own tolerance — and for tonal /
  *      low-frequency-dominated input (see judge() for why); not applied to the single 440 Hz carrier of the stereo-pan family.
@@ -50,13 +57,11 @@
 #include "opus.h"
 #include "opus_multistream.h"
 #include "opus_projection.h"
+#include "opus_private.h"   /* OPUS_SET_FORCE_MODE, MODE_* (the ctl the multistream encoder itself uses) */
 #include "mc.h"
 #include "signals.h"
 #include "thresholds.h"
 
-int opus_packet_parse_impl(const unsigned char *data, opus_int32 len,int self_delimited, unsigned char *out_toc,
-      const unsigned char *frames[48], opus_int16 size[48],int *payload_offset, opus_int32 *packet_offset,
-      const unsigned char **padding, opus_int32 *padding_len);
 
 /* ------------------------------------------------------------------ grid */
 static const int FSS[5]={8000,12000,16000,24000,48000};
@@ -74,6 +79,34 @@ static const int FAMSIG[6]={SIG_MULTITONE,SIG_SWEEP,SIG_SPEECH,SIG_BANDNOISE,SIG
 static int floor_bps(int durx2,int ch){ int f = durx2<=5?64000: durx2<=10?32000: durx2<=20?20000:16000; return ch==2? f*3/2 : f; }
 static int level_bps(int durx2,int ch,int lv){ double b=floor_bps(durx2,ch)*LVMUL[lv]; return b>510000?510000:(int)b; }
 static int durclass(int durx2){ return durx2<=5?0:durx2<=10?1:durx2<=20?2:3; }
+
+/* ---- <=1-step histories in front of the measured run (parts hist / mshist) ----
+ * Every setting that enters the encoder's delay path or mode decision, applied through the documented ctl
+ *   P=0 before the first frame, P=1 after a prefix of frames + OPUS_RESET_STATE, P=2 mid-stream after a prefix (no reset),
+ * on an encoder CREATED with application A (all ordered pairs create-application -> ctl-application included).
+ * A ctl the encoder rejects (e.g. another application mid-stream, forced stereo on mono) is not a configuration: counted, not run.
+ * OPUS_GET_LOOKAHEAD is read AFTER the history and again after the run. */
+enum { S_APP0=0,S_APP1,S_APP2,S_FD,S_MSILK,S_MHYB,S_MCELT,S_BWNB,S_BWMB,S_BWWB,S_BWSWB,S_BWFB,S_FC1,S_FC2,S_CX0,S_CX5,S_VOICE,S_MUSIC,NSET };
+static const char *const SETN[NSET]={"OPUS_SET_APPLICATION(VOIP)","OPUS_SET_APPLICATION(AUDIO)","OPUS_SET_APPLICATION(RESTRICTED_LOWDELAY)","OPUS_SET_EXPERT_FRAME_DURATION(frame)",
+   "OPUS_SET_FORCE_MODE(SILK)","OPUS_SET_FORCE_MODE(HYBRID)","OPUS_SET_FORCE_MODE(CELT)","OPUS_SET_BANDWIDTH(NB)","OPUS_SET_BANDWIDTH(MB)","OPUS_SET_BANDWIDTH(WB)","OPUS_SET_BANDWIDTH(SWB)","OPUS_SET_BANDWIDTH(FB)",
+   "OPUS_SET_FORCE_CHANNELS(1)","OPUS_SET_FORCE_CHANNELS(2)","OPUS_SET_COMPLEXITY(0)","OPUS_SET_COMPLEXITY(5)","OPUS_SET_SIGNAL(VOICE)","OPUS_SET_SIGNAL(MUSIC)"};
+static const char *const PLACEN[3]={"before the first frame","after a prefix + OPUS_RESET_STATE","mid-stream after a prefix"};
+typedef struct { int A,S,P; } hist;
+static void set_req(int S,int duri,int *req,opus_int32 *val){
+   static const int bw[5]={OPUS_BANDWIDTH_NARROWBAND,OPUS_BANDWIDTH_MEDIUMBAND,OPUS_BANDWIDTH_WIDEBAND,OPUS_BANDWIDTH_SUPERWIDEBAND,OPUS_BANDWIDTH_FULLBAND};
+   if (S<=S_APP2){ *req=OPUS_SET_APPLICATION_REQUEST; *val=S==S_APP0?OPUS_APPLICATION_VOIP:S==S_APP1?OPUS_APPLICATION_AUDIO:OPUS_APPLICATION_RESTRICTED_LOWDELAY; }
+   else if (S==S_FD){ *req=OPUS_SET_EXPERT_FRAME_DURATION_REQUEST; *val=OPUS_FRAMESIZE_2_5_MS+duri; }
+   else if (S<=S_MCELT){ *req=OPUS_SET_FORCE_MODE_REQUEST; *val=MODE_SILK_ONLY+(S-S_MSILK); }
+   else if (S<=S_BWFB){ *req=OPUS_SET_BANDWIDTH_REQUEST; *val=bw[S-S_BWNB]; }
+   else if (S<=S_FC2){ *req=OPUS_SET_FORCE_CHANNELS_REQUEST; *val=1+(S-S_FC1); }
+   else if (S<=S_CX5){ *req=OPUS_SET_COMPLEXITY_REQUEST; *val=S==S_CX0?0:5; }
+   else { *req=OPUS_SET_SIGNAL_REQUEST; *val=S==S_VOICE?OPUS_SIGNAL_VOICE:OPUS_SIGNAL_MUSIC; }
+}
+/* history class used in the threshold key: 0 application set to the create value, 1 application switched, 2.. one per other setting */
+static int hkind_of(const hist *h){ return h->S<=S_APP2 ? (h->S==h->A?0:1) : 2+(h->S-S_FD); }
+#define NHK (2+NSET-S_FD)
+static int app_index(opus_int32 a){ return a==OPUS_APPLICATION_VOIP?0:a==OPUS_APPLICATION_AUDIO?1:2; }
+static int prefix_frames(int fs,int fsz){ int n=(fs/10+fsz-1)/fsz; return n<2?2:n; }
 
 /* tier-dependent enumeration lists */
 static int nDUR, DURI[9], nCPX, CPXI[3];
@@ -94,12 +127,17 @@ static const char *const LAYN[NLAY]={"ms-stereo","ms-5.1","dual-mono","proj-o1",
 static const int LAYCH[6]={2,6,2,4,9,16};
 #define MS_CELLS (NLAY*3*3*5*4)
 static int ms_cell(int lay,int app,int lv,int bw,int dc){ return (((lay*3+app)*3+lv)*5+bw)*4+dc; }
-#define MAXCELLS (SS_CELLS>MS_CELLS?SS_CELLS:MS_CELLS)
+#define HIST_CELLS (NHK*3*5*5*6)
+static int hist_cell(int hk,int app,int lv,int bw,int fam){ return (((hk*3+app)*5+lv)*5+bw)*6+fam; }
+#define MSH_CELLS (NHK*6*3*5)
+static int msh_cell(int hk,int lay,int app,int bw){ return ((hk*6+lay)*3+app)*5+bw; }
+#define MAXCELLS HIST_CELLS
 #define NA_CDB (-32768)
 typedef struct { long snr,seg,bgain,bloss,n; } cellv;       /* centi-dB; snr/seg are minima, bgain/bloss maxima */
 static cellv *CAL;            /* shared: observed in this run (calibrate mode and evidence) */
 static cellv THR[MAXCELLS];   /* compiled-in worst-observed values, densified */
-static int ncells, is_ms, calibrating;
+static int ncells, kind /* 0 ss, 1 ms, 2 hist, 3 mshist */, calibrating;
+#define is_ms (kind==1)
 static const char *calib_path;
 
 static void cas_min(long *p,long v){ long o=__atomic_load_n(p,__ATOMIC_RELAXED); while(v<o && !__atomic_compare_exchange_n(p,&o,v,1,__ATOMIC_RELAXED,__ATOMIC_RELAXED)); }
@@ -108,8 +146,9 @@ static long cdb(double db){ if(db>300) db=300; if(db<-300) db=-300; return (long
 
 static void thr_load(void){
    const c04_thr_row *t; int n,i;
-   if (!is_ms){ if (MC.tier){ t=C04_THR_THOROUGH_SS; n=sizeof C04_THR_THOROUGH_SS/sizeof *t; } else { t=C04_THR_QUICK_SS; n=sizeof C04_THR_QUICK_SS/sizeof *t; } }
-   else       { if (MC.tier){ t=C04_THR_THOROUGH_MS; n=sizeof C04_THR_THOROUGH_MS/sizeof *t; } else { t=C04_THR_QUICK_MS; n=sizeof C04_THR_QUICK_MS/sizeof *t; } }
+#define PICK(T,Q) do{ if (MC.tier){ t=T; n=sizeof T/sizeof *t; } else { t=Q; n=sizeof Q/sizeof *t; } }while(0)
+   if (kind==0) PICK(C04_THR_THOROUGH_SS,C04_THR_QUICK_SS); else if (kind==1) PICK(C04_THR_THOROUGH_MS,C04_THR_QUICK_MS);
+   else if (kind==2) PICK(C04_THR_THOROUGH_HIST,C04_THR_QUICK_HIST); else PICK(C04_THR_THOROUGH_MSHIST,C04_THR_QUICK_MSHIST);
    for(i=0;i<MAXCELLS;i++){ THR[i].n=0; THR[i].snr=THR[i].seg=NA_CDB; THR[i].bgain=THR[i].bloss=NA_CDB; }
    for(i=0;i<n;i++) if (t[i].cell>=0 && t[i].cell<ncells){ cellv *c=&THR[t[i].cell]; c->snr=t[i].snr_cdb; c->seg=t[i].seg_cdb; c->bgain=t[i].bgain_cdb; c->bloss=t[i].bloss_cdb; c->n=t[i].n; }
 }
@@ -119,8 +158,10 @@ static void thr_load(void){
 typedef struct { int app,lv,bw; } coarse_key;
 static coarse_key cell_coarse(int cell){
    coarse_key k;
-   if (!is_ms){ int x=cell/4/2/NFAM; k.bw=x%5; x/=5; k.lv=x%5; k.app=x/5; }
-   else { int x=cell/4; k.bw=x%5; x/=5; k.lv=x%3; x/=3; k.app=x%3; }
+   if (kind==0){ int x=cell/4/2/NFAM; k.bw=x%5; x/=5; k.lv=x%5; k.app=x/5; }
+   else if (kind==1){ int x=cell/4; k.bw=x%5; x/=5; k.lv=x%3; x/=3; k.app=x%3; }
+   else if (kind==2){ int x=cell/6; k.bw=x%5; x/=5; k.lv=x%5; x/=5; k.app=x%3; }
+   else { k.bw=cell%5; k.app=(cell/5)%3; k.lv=0; }
    return k;
 }
 static int thr_get(int cell,cellv *out,int *how){
@@ -142,12 +183,14 @@ static void cal_note(int cell,double snr,double seg,double bgain,double bloss){
 }
 static void cal_write(void){
    FILE *f; int i; char name[64]; long rows=0;
-   snprintf(name,sizeof name,"C04_THR_%s_%s",MC.tier?"THOROUGH":"QUICK",is_ms?"MS":"SS");
+   static const char *const KN[4]={"SS","MS","HIST","MSHIST"}, *const KM[4]={"ss","ms","hist","mshist"};
+   static const char *const KC[4]={"((((app*5+level)*5+bandwidth)*9+family)*2+(ch-1))*4+durclass","(((layout*3+app)*3+level)*5+bandwidth)*4+durclass",
+      "(((histclass*3+app)*5+level)*5+bandwidth)*6+family","((histclass*6+layout)*3+app)*5+bandwidth"};
+   snprintf(name,sizeof name,"C04_THR_%s_%s",MC.tier?"THOROUGH":"QUICK",KN[kind]);
    f=fopen(calib_path,"w"); if(!f){ perror(calib_path); exit(2); }
    fprintf(f,"/* GENERATED by `c04_fid --mode %s --tier %s --calibrate <this file>` on the unchanged tree (see thresholds.h).\n"
              " * worst observed values in centi-dB, margin applied at check time. cell index = %s */\n",
-             is_ms?"ms":"ss",MC.tier?"thorough":"quick",
-             is_ms?"(((layout*3+app)*3+level)*5+bandwidth)*4+durclass":"((((app*5+level)*5+bandwidth)*9+family)*2+(ch-1))*4+durclass");
+             KM[kind],MC.tier?"thorough":"quick",KC[kind]);
    fprintf(f,"static const c04_thr_row %s[] = {\n",name);
    for(i=0;i<ncells;i++) if (CAL[i].n>0){ fprintf(f," {%d,%ld,%ld,%ld,%ld,%ld},\n",i,CAL[i].snr<-32000?-32000:CAL[i].snr>32000?32000:CAL[i].snr,CAL[i].seg<-32000?-32000:CAL[i].seg>32000?32000:CAL[i].seg,
          CAL[i].bgain>32000?32000:CAL[i].bgain,CAL[i].bloss>32000?32000:CAL[i].bloss,CAL[i].n); rows++; }
@@ -157,7 +200,7 @@ static void cal_write(void){
 
 /* ------------------------------------------------------------------ numeric helpers */
 #define MAXCH 16
-#define MAXN 72000
+#define MAXN (72000+11520)   /* 1.5 s at 48 kHz + the longest history prefix */
 static float *X[MAXCH], *Y[MAXCH];       /* planar input / output, per worker */
 static short *x16; static opus_int32 *x24; static float *xf; static short *y16; static opus_int32 *y24; static float *yf;
 static unsigned char *pkt;
@@ -253,7 +296,7 @@ static void analyse(int nch,unsigned mask,int N,int fs,int la,int s0,int lagl,in
 }
 
 /* ------------------------------------------------------------------ shared bookkeeping */
-static mc_ctr *c_eval,*c_frames,*c_delay_exact,*c_delay_checked,*c_delay_gated,*c_fid_checked,*c_ident_checked,*c_silkpath,*c_fallback,*c_dn,*c_onehot;
+static mc_ctr *c_eval,*c_frames,*c_delay_exact,*c_delay_checked,*c_delay_gated,*c_fid_checked,*c_ident_checked,*c_silkpath,*c_fallback,*c_dn,*c_onehot,*c_rejected,*c_la_requery;
 static mc_set *cells_seen,*sample_classes;
 static int dump;
 static void dumpline(const char *s){ if(dump){ size_t n=strlen(s); if(write(2,s,n)<0){} } }
@@ -296,7 +339,7 @@ static void judge(const char *desc,int cell,const fid *m,int fs,int modemask,con
 static const char *modetag_of(int modemask){ return modemask==4?"celt":modemask==1?"silk":modemask==2?"hybrid":(modemask&4)?"mixed-celt":"silk+hybrid"; }
 
 /* ------------------------------------------------------------------ single stream */
-static int gen_ss(int fam,int fs,int ch,int N){
+static int gen_ss(int fam,int fs,int ch,int N){   /* N = history prefix + measured samples, one continuous signal */
    siggen g; int i, skip=(int)(PRE_SECONDS*fs);
    int sf = fam<6?FAMSIG[fam]:SIG_MULTITONE;
    sig_init(&g,sf,fs,ch,1000+fam);
@@ -311,32 +354,44 @@ static int gen_ss(int fam,int fs,int ch,int N){
 }
 static void to_formats(int n){ int i; for(i=0;i<n;i++){ x24[i]=(opus_int32)x16[i]*256; xf[i]=x16[i]*(1.0f/32768.0f); } }
 
-typedef struct { int la,N,fsz,minbw,modemask,err; long bytes; int npk; unsigned char toc_mid; } runinfo;
+typedef struct { int la,la2,N,fsz,minbw,modemask,err,rejected,app_final,npre; long bytes; int npk; unsigned char toc_mid; } runinfo;
 
-static void run_ss(const sscfg *c,int fam,int fmt,runinfo *r){
-   int fs=FSS[c->fsi], ch=c->ch, fsz=fs*DURX2[c->duri]/2000, N=(int)(SIG_SECONDS*fs), err=0, f,i,k, nf, la=0;
-   int bps=level_bps(DURX2[c->duri],ch,c->lv), s0;
+/* h==NULL: the plain grid run. Otherwise the encoder is created with application h->A, the history is applied, and the measured
+ * run starts after it (X/Y hold the measured span only; the signal is continuous across the prefix). */
+static void run_ss(const sscfg *c,int fam,int fmt,const hist *h,runinfo *r){
+   int fs=FSS[c->fsi], ch=c->ch, fsz=fs*DURX2[c->duri]/2000, N=(int)(SIG_SECONDS*fs), err=0, f,i,k, nf, la=0, npre, P=h?h->P:0;
+   int bps=level_bps(DURX2[c->duri],ch,c->lv), s0; opus_int32 appv=0;
    OpusEncoder *e; OpusDecoder *d;
    memset(r,0,sizeof *r); r->minbw=4; N-=N%fsz; nf=N/fsz; r->N=N; r->fsz=fsz;
-   gen_ss(fam,fs,ch,N); to_formats(N*ch);
-   for(k=0;k<ch;k++) for(i=0;i<N;i++) X[k][i]=xf[i*ch+k];
-   e=opus_encoder_create(fs,ch,APPS[c->app],&err); if(!e||err){ r->err=1; return; }
+   npre = (h&&P>0)? prefix_frames(fs,fsz) : 0; r->npre=npre;
+   gen_ss(fam,fs,ch,N+npre*fsz); to_formats((N+npre*fsz)*ch);
+   for(k=0;k<ch;k++) for(i=0;i<N;i++) X[k][i]=xf[(npre*fsz+i)*ch+k];
+   e=opus_encoder_create(fs,ch,APPS[h?h->A:c->app],&err); if(!e||err){ r->err=1; return; }
    d=opus_decoder_create(fs,ch,&err); if(!d||err){ r->err=2; opus_encoder_destroy(e); return; }
-   if (opus_encoder_ctl(e,OPUS_SET_BITRATE(bps))||opus_encoder_ctl(e,OPUS_SET_COMPLEXITY(CPLX[c->cpi]))||opus_encoder_ctl(e,OPUS_SET_VBR(c->cbr?0:1))||opus_encoder_ctl(e,OPUS_GET_LOOKAHEAD(&la))) r->err=3;
-   r->la=la; s0=(int)(SKIP_SECONDS*fs);
-   for(f=0;f<nf&&!r->err;f++){
-      int n,got; long off=(long)f*fsz*ch;
+   if (opus_encoder_ctl(e,OPUS_SET_BITRATE(bps))||opus_encoder_ctl(e,OPUS_SET_COMPLEXITY(CPLX[c->cpi]))||opus_encoder_ctl(e,OPUS_SET_VBR(c->cbr?0:1))) r->err=3;
+   s0=(int)(SKIP_SECONDS*fs);
+   for(f=0;f<npre+nf&&!r->err;f++){
+      int n,got,mf=f-npre; long off=(long)f*fsz*ch;
+      if (f==npre){   /* end of the history: (reset,) setting, then read the lookahead the encoder now reports */
+         if (h){ int req; opus_int32 val;
+            if (P==1 && (opus_encoder_ctl(e,OPUS_RESET_STATE)||opus_decoder_ctl(d,OPUS_RESET_STATE))){ r->err=4; break; }
+            set_req(h->S,c->duri,&req,&val);
+            if (opus_encoder_ctl(e,req,val)!=OPUS_OK){ r->rejected=1; break; } }
+         if (opus_encoder_ctl(e,OPUS_GET_LOOKAHEAD(&la))||opus_encoder_ctl(e,OPUS_GET_APPLICATION(&appv))){ r->err=3; break; }
+         r->la=la; r->app_final=app_index(appv); }
       if (fmt==0) n=opus_encode(e,x16+off,fsz,pkt,7700); else if (fmt==1) n=opus_encode24(e,x24+off,fsz,pkt,7700); else n=opus_encode_float(e,xf+off,fsz,pkt,7700);
       if (n<1){ r->err=10; break; }
-      r->bytes+=n; r->npk++;
-      if ((f+1)*fsz>s0){ int bw=bw_index(opus_packet_get_bandwidth(pkt)); if(bw<r->minbw) r->minbw=bw; r->modemask |= (pkt[0]&0x80)?4:((pkt[0]&0x60)==0x60?2:1); }
-      if (f==nf/2) r->toc_mid=pkt[0];
-      if (fmt==0){ got=opus_decode(d,pkt,n,y16,fsz,0); if(got==fsz) for(k=0;k<ch;k++) for(i=0;i<fsz;i++) Y[k][f*fsz+i]=y16[i*ch+k]*(1.0f/32768.0f); }
-      else if (fmt==1){ got=opus_decode24(d,pkt,n,y24,fsz,0); if(got==fsz) for(k=0;k<ch;k++) for(i=0;i<fsz;i++) Y[k][f*fsz+i]=y24[i*ch+k]*(1.0f/8388608.0f); }
-      else { got=opus_decode_float(d,pkt,n,yf,fsz,0); if(got==fsz) for(k=0;k<ch;k++) for(i=0;i<fsz;i++) Y[k][f*fsz+i]=yf[i*ch+k]; }
+      if (mf>=0){ r->bytes+=n; r->npk++;
+         if ((mf+1)*fsz>s0){ int bw=bw_index(opus_packet_get_bandwidth(pkt)); if(bw<r->minbw) r->minbw=bw; r->modemask |= (pkt[0]&0x80)?4:((pkt[0]&0x60)==0x60?2:1); }
+         if (mf==nf/2) r->toc_mid=pkt[0]; }
+      if (fmt==0){ got=opus_decode(d,pkt,n,y16,fsz,0); if(got==fsz&&mf>=0) for(k=0;k<ch;k++) for(i=0;i<fsz;i++) Y[k][mf*fsz+i]=y16[i*ch+k]*(1.0f/32768.0f); }
+      else if (fmt==1){ got=opus_decode24(d,pkt,n,y24,fsz,0); if(got==fsz&&mf>=0) for(k=0;k<ch;k++) for(i=0;i<fsz;i++) Y[k][mf*fsz+i]=y24[i*ch+k]*(1.0f/8388608.0f); }
+      else { got=opus_decode_float(d,pkt,n,yf,fsz,0); if(got==fsz&&mf>=0) for(k=0;k<ch;k++) for(i=0;i<fsz;i++) Y[k][mf*fsz+i]=yf[i*ch+k]; }
       if (got!=fsz){ r->err=20; break; }
    }
+   r->la2=r->la; if (!r->err&&!r->rejected&&opus_encoder_ctl(e,OPUS_GET_LOOKAHEAD(&r->la2))) r->err=3;
    opus_encoder_destroy(e); opus_decoder_destroy(d);
+   if (r->rejected){ MC_INC(c_rejected); return; }
    MC_INC(c_eval); MC_ADD(c_frames,r->npk);
 }
 
@@ -349,12 +404,12 @@ static void ss_item(long it,void *ctx){
    for(fam=0;fam<nfam;fam++){
       runinfo r; fid m; int fmt=(int)((it+fam)%3), s0,lagl,lagh,cell; const char *mt;
       mc_case("ss_roundtrip","Fs=%d ch=%d app=%s dur=%.1fms bitrate=%d(level %d) complexity=%d %s signal=%s format=%s",fs,c.ch,APPN[c.app],durx2/2.0,bps,c.lv,CPLX[c.cpi],c.cbr?"CBR":"VBR",FAMN[fam],FMTN[fmt]);
-      run_ss(&c,fam,fmt,&r);
+      run_ss(&c,fam,fmt,NULL,&r);
       snprintf(desc,sizeof desc,"Fs=%d ch=%d app=%s dur=%.1fms bitrate=%d(level %d) complexity=%d %s signal=%s format=%s [%s %s, %d packets, %ld bytes]",fs,c.ch,APPN[c.app],durx2/2.0,bps,c.lv,CPLX[c.cpi],c.cbr?"CBR":"VBR",FAMN[fam],FMTN[fmt],
                modetag_of(r.modemask),BWN[r.minbw],r.npk,r.bytes);
       if (r.err){ mc_fail("roundtrip_error:ss","%s: create/ctl/encode/decode failed (stage %d)",desc,r.err); continue; }
       s0=(int)(SKIP_SECONDS*fs);
-      lagl=r.la-(r.la<fs/250?r.la:fs/250); lagh=r.la+fs/200;
+      lagl=r.la-(r.la<fs/200?r.la:fs/200); lagh=r.la+fs*6/1000;
       if (fam==F_PAN){ lagl=r.la-fs/1000; lagh=r.la+fs/1000; if(lagl<0)lagl=0; }   /* 440 Hz carrier: stay inside half a period */
       analyse(c.ch,(1u<<c.ch)-1,r.N,fs,r.la,s0,lagl,lagh,r.minbw,&m);
       mt=modetag_of(r.modemask);
@@ -384,6 +439,44 @@ static void ss_item(long it,void *ctx){
             if (hi && (fabs(db10(eol,eil))>1.0||fabs(db10(eor,eir))>1.0)) mc_fail("channel_identity:level","%s: L=-R input: level changed by %+.2f / %+.2f dB (> 1 dB)",desc,db10(eol,eil),db10(eor,eir));
          }
       }
+   }
+}
+
+/* ------------------------------------------------------------------ single stream with a <=1-step history */
+typedef struct { int fsi,ch,duri,lv; hist h; } hcfg;
+static int nHFS,HFSI[5],nHDUR,HDURI[9],nHLV,HLVI[5],nHFAM,HFAM[6];
+static long hist_items(void){ return (long)nHFS*2*nHDUR*nHLV*3*NSET*3; }
+static void hist_decode(long it,hcfg *c){
+   c->h.P=it%3; it/=3; c->h.S=it%NSET; it/=NSET; c->h.A=it%3; it/=3; c->lv=HLVI[it%nHLV]; it/=nHLV; c->duri=HDURI[it%nHDUR]; it/=nHDUR; c->ch=1+it%2; it/=2; c->fsi=HFSI[it%nHFS];
+}
+/* lookahead clause shared by hist / mshist: the value read after the history must still be reported after the run */
+static void lookahead_stable(const char *desc,const runinfo *r){
+   MC_INC(c_la_requery);
+   if (r->la2!=r->la) mc_fail("lookahead_changed_during_run","%s: OPUS_GET_LOOKAHEAD returned %d after the history and %d after the run",desc,r->la,r->la2);
+}
+static void hist_item(long it,void *ctx){
+   hcfg c; sscfg b; int fi,fs,durx2,bps; char desc[600]; (void)ctx;
+   bufs_init(); hist_decode(it,&c); fs=FSS[c.fsi]; durx2=DURX2[c.duri]; bps=level_bps(durx2,c.ch,c.lv);
+   b.fsi=c.fsi; b.ch=c.ch; b.app=c.h.A; b.duri=c.duri; b.lv=c.lv; b.cpi=2; b.cbr=0;
+   for(fi=0;fi<nHFAM;fi++){
+      runinfo r; fid m; int fam=HFAM[fi], fmt=(int)((it+fi)%3), s0,lagl,lagh,cell; const char *mt;
+      mc_case("hist_roundtrip","Fs=%d ch=%d create=%s then %s %s; dur=%.1fms bitrate=%d(level %d) signal=%s format=%s",fs,c.ch,APPN[c.h.A],SETN[c.h.S],PLACEN[c.h.P],durx2/2.0,bps,c.lv,FAMN[fam],FMTN[fmt]);
+      run_ss(&b,fam,fmt,&c.h,&r);
+      if (r.rejected) break;      /* the ctl is refused in this state: not a configuration (same for every family) */
+      snprintf(desc,sizeof desc,"Fs=%d ch=%d history: create(application=%s)%s, %s %s -> application now %s; dur=%.1fms bitrate=%d(level %d) complexity=10 VBR signal=%s format=%s [%s %s, %d packets, %ld bytes]",
+               fs,c.ch,APPN[c.h.A],r.npre?", encode prefix":"",SETN[c.h.S],PLACEN[c.h.P],APPN[r.app_final],durx2/2.0,bps,c.lv,FAMN[fam],FMTN[fmt],modetag_of(r.modemask),BWN[r.minbw],r.npk,r.bytes);
+      if (r.err){ mc_fail("roundtrip_error:hist","%s: create/ctl/encode/decode failed (stage %d)",desc,r.err); continue; }
+      lookahead_stable(desc,&r);
+      s0=(int)(SKIP_SECONDS*fs);
+      lagl=r.la-(r.la<fs/200?r.la:fs/200); lagh=r.la+fs*6/1000;
+      if (fam==F_PAN){ lagl=r.la-fs/1000; lagh=r.la+fs/1000; if(lagl<0)lagl=0; }
+      analyse(c.ch,(1u<<c.ch)-1,r.N,fs,r.la,s0,lagl,lagh,r.minbw,&m);
+      mt=modetag_of(r.modemask);
+      cell=hist_cell(hkind_of(&c.h),r.app_final,c.lv,r.minbw,fam);
+      if (dump){ char l[900]; snprintf(l,sizeof l,"D hist it=%ld %s | la=%d best=%d frac=%.3f snr_la=%.2f snr_best=%.2f seg=%.2f bgain=%.2f bloss=%.2f nb=%d cell=%d\n",it,desc,m.la,m.best,m.frac,m.snr_la,m.snr_best,m.seg,m.bgain,m.bloss,m.nbands,cell); dumpline(l); }
+      judge(desc,cell,&m,fs,r.modemask,mt, fam==F_PAN?0:(fam==F_SWEEP||fam==F_BANDN||fam==F_CLICKS)?2:1);
+      if (m.snr_best>0 && mc_set_add(cells_seen,mc_mix(mc_mix(cell,c.h.P),mc_mix(c.h.A,c.h.S)))){ MC_INC(c_dn);
+         if (mc_set_add(sample_classes,mc_mix(mc_mix(c.h.S,c.h.A),mc_mix(c.h.P,c.ch)))) mc_sample("%s -> lookahead=%d (after the run %d), correlation peak at lag %d (%.2f), SNR %.2f dB, segSNR %.2f dB",desc,m.la,r.la2,m.best,m.frac,m.snr_la,m.seg); }
    }
 }
 
@@ -433,22 +526,31 @@ static void gen_ms(int lay,int fs,int N,int rot,int onehot){
         sig_gen(&g,tmp,N); for(i=0;i<N;i++) x16[i*nch+k]=(short)lrint(tmp[i]*a); }
    }
 }
-static void run_ms(const mscfg *c,int fmt,int rot,int onehot,runinfo *r){
-   int fs=FSS[c->fsi], nch=LAYCH[c->lay], durx2=DURX2[c->duri], fsz=fs*durx2/2000, N=(int)(SIG_SECONDS*fs), f,i,k,nf,la=0,s0,e;
-   int bps=ms_perch_bps(durx2,c->lv)*nch; mscodec m;
+#define MS_DCTL(m,...) ((m)->kind?opus_projection_decoder_ctl((m)->pd,__VA_ARGS__):opus_multistream_decoder_ctl((m)->md,__VA_ARGS__))
+static void run_ms(const mscfg *c,int fmt,int rot,int onehot,const hist *h,runinfo *r){
+   int fs=FSS[c->fsi], nch=LAYCH[c->lay], durx2=DURX2[c->duri], fsz=fs*durx2/2000, N=(int)(SIG_SECONDS*fs), f,i,k,nf,la=0,s0,e,npre,P=h?h->P:0;
+   int bps=ms_perch_bps(durx2,c->lv)*nch; mscodec m; opus_int32 appv=0;
    memset(r,0,sizeof *r); r->minbw=4; N-=N%fsz; nf=N/fsz; r->N=N; r->fsz=fsz;
-   gen_ms(c->lay,fs,N,rot,onehot); to_formats(N*nch);
-   for(k=0;k<nch;k++) for(i=0;i<N;i++) X[k][i]=xf[i*nch+k];
-   e=ms_open(&m,c->lay,fs,APPS[c->app]); if(e){ r->err=e; ms_close(&m); return; }
-   if (MS_ECTL(&m,OPUS_SET_BITRATE(bps))||MS_ECTL(&m,OPUS_SET_COMPLEXITY(CPLX[c->cpi]))||MS_ECTL(&m,OPUS_SET_VBR(c->cbr?0:1))||MS_ECTL(&m,OPUS_GET_LOOKAHEAD(&la))) r->err=4;
-   r->la=la; s0=(int)(SKIP_SECONDS*fs);
-   for(f=0;f<nf&&!r->err;f++){
-      int n,got=-1; long off=(long)f*fsz*nch; int maxb=7700*m.streams;
+   npre=(h&&P>0)?prefix_frames(fs,fsz):0; r->npre=npre;
+   gen_ms(c->lay,fs,N+npre*fsz,rot,onehot); to_formats((N+npre*fsz)*nch);
+   for(k=0;k<nch;k++) for(i=0;i<N;i++) X[k][i]=xf[(npre*fsz+i)*nch+k];
+   e=ms_open(&m,c->lay,fs,APPS[h?h->A:c->app]); if(e){ r->err=e; ms_close(&m); return; }
+   if (MS_ECTL(&m,OPUS_SET_BITRATE(bps))||MS_ECTL(&m,OPUS_SET_COMPLEXITY(CPLX[c->cpi]))||MS_ECTL(&m,OPUS_SET_VBR(c->cbr?0:1))) r->err=4;
+   s0=(int)(SKIP_SECONDS*fs);
+   for(f=0;f<npre+nf&&!r->err;f++){
+      int n,got=-1,mf=f-npre; long off=(long)f*fsz*nch; int maxb=7700*m.streams;
+      if (f==npre){
+         if (h){ int req; opus_int32 val;
+            if (P==1 && (MS_ECTL(&m,OPUS_RESET_STATE)||MS_DCTL(&m,OPUS_RESET_STATE))){ r->err=5; break; }
+            set_req(h->S,c->duri,&req,&val);
+            if (MS_ECTL(&m,req,val)!=OPUS_OK){ r->rejected=1; break; } }
+         if (MS_ECTL(&m,OPUS_GET_LOOKAHEAD(&la))||MS_ECTL(&m,OPUS_GET_APPLICATION(&appv))){ r->err=4; break; }
+         r->la=la; r->app_final=app_index(appv); }
       if (!m.kind){ n= fmt==0?opus_multistream_encode(m.me,x16+off,fsz,pkt,maxb): fmt==1?opus_multistream_encode24(m.me,x24+off,fsz,pkt,maxb):opus_multistream_encode_float(m.me,xf+off,fsz,pkt,maxb); }
       else        { n= fmt==0?opus_projection_encode(m.pe,x16+off,fsz,pkt,maxb): fmt==1?opus_projection_encode24(m.pe,x24+off,fsz,pkt,maxb):opus_projection_encode_float(m.pe,xf+off,fsz,pkt,maxb); }
       if (n<1){ r->err=10; break; }
-      r->bytes+=n; r->npk++;
-      if ((f+1)*fsz>s0){ /* walk the streams: bandwidth and mode of every stream */
+      if (mf>=0){ r->bytes+=n; r->npk++; }
+      if (mf>=0 && (mf+1)*fsz>s0){ /* walk the streams: bandwidth and mode of every stream */
          const unsigned char *p=pkt; int left=n,s;
          for(s=0;s<m.streams;s++){ unsigned char toc; opus_int16 sz[48]; opus_int32 po=0; int bw; int cnt=opus_packet_parse_impl(p,left,s!=m.streams-1,&toc,NULL,sz,NULL,&po,NULL,NULL);
             if (cnt<0){ r->err=11; break; }
@@ -458,9 +560,11 @@ static void run_ms(const mscfg *c,int fmt,int rot,int onehot,runinfo *r){
       if (!m.kind){ if(fmt==0) got=opus_multistream_decode(m.md,pkt,n,y16,fsz,0); else if(fmt==1) got=opus_multistream_decode24(m.md,pkt,n,y24,fsz,0); else got=opus_multistream_decode_float(m.md,pkt,n,yf,fsz,0); }
       else        { if(fmt==0) got=opus_projection_decode(m.pd,pkt,n,y16,fsz,0); else if(fmt==1) got=opus_projection_decode24(m.pd,pkt,n,y24,fsz,0); else got=opus_projection_decode_float(m.pd,pkt,n,yf,fsz,0); }
       if (got!=fsz){ r->err=20; break; }
-      for(k=0;k<nch;k++) for(i=0;i<fsz;i++) Y[k][f*fsz+i]= fmt==0? y16[i*nch+k]*(1.0f/32768.0f): fmt==1? y24[i*nch+k]*(1.0f/8388608.0f): yf[i*nch+k];
+      if (mf>=0) for(k=0;k<nch;k++) for(i=0;i<fsz;i++) Y[k][mf*fsz+i]= fmt==0? y16[i*nch+k]*(1.0f/32768.0f): fmt==1? y24[i*nch+k]*(1.0f/8388608.0f): yf[i*nch+k];
    }
+   r->la2=r->la; if (!r->err&&!r->rejected&&MS_ECTL(&m,OPUS_GET_LOOKAHEAD(&r->la2))) r->err=4;
    ms_close(&m);
+   if (r->rejected){ MC_INC(c_rejected); return; }
    MC_INC(c_eval); MC_ADD(c_frames,r->npk);
 }
 
@@ -469,11 +573,11 @@ static void ms_item(long it,void *ctx){
    bufs_init(); ms_decode(it,&c); fs=FSS[c.fsi]; durx2=DURX2[c.duri]; nch=LAYCH[c.lay]; perch=ms_perch_bps(durx2,c.lv);
    fmt=(int)(it%3); rot=(int)(it%5);
    mc_case("ms_roundtrip","layout=%s Fs=%d app=%s dur=%.1fms bitrate=%dx%d complexity=%d %s format=%s rot=%d",LAYN[c.lay],fs,APPN[c.app],durx2/2.0,nch,perch,CPLX[c.cpi],c.cbr?"CBR":"VBR",FMTN[fmt],rot);
-   run_ms(&c,fmt,rot,-1,&r);
+   run_ms(&c,fmt,rot,-1,NULL,&r);
    snprintf(desc,sizeof desc,"layout=%s Fs=%d app=%s dur=%.1fms bitrate=%dx%d(level %d) complexity=%d %s format=%s family-rotation=%d [%s %s, %d packets, %ld bytes]",LAYN[c.lay],fs,APPN[c.app],durx2/2.0,nch,perch,c.lv,CPLX[c.cpi],c.cbr?"CBR":"VBR",FMTN[fmt],rot,modetag_of(r.modemask),BWN[r.minbw],r.npk,r.bytes);
    if (r.err){ mc_fail("roundtrip_error:ms","%s: create/ctl/encode/decode failed (stage %d)",desc,r.err); return; }
    s0=(int)(SKIP_SECONDS*fs); L=r.N-s0;
-   lagl=r.la-(r.la<fs/250?r.la:fs/250); lagh=r.la+fs/200;
+   lagl=r.la-(r.la<fs/200?r.la:fs/200); lagh=r.la+fs*6/1000;
    mask=(1u<<nch)-1; if (c.lay==1) mask&=~(1u<<5);
    analyse(nch,mask,r.N,fs,r.la,s0,lagl,lagh,r.minbw,&m);
    {  /* delay is decided on the channels that carry a sharp family (sweep, band noise, clicks) — see judge() */
@@ -511,7 +615,7 @@ static void ms_item(long it,void *ctx){
       for(k=0;k<nch;k++){ runinfo r1; double eo[MAXCH],ein,worst=1e300; int wj=-1; char d1[500];
          mc_case("ms_onehot","layout=%s Fs=%d app=%s channel=%d",LAYN[c.lay],fs,APPN[c.app],k);
          int f1=(int)((it+k+1)%3);
-         run_ms(&c,f1,rot,k,&r1); MC_INC(c_onehot);
+         run_ms(&c,f1,rot,k,NULL,&r1); MC_INC(c_onehot);
          snprintf(d1,sizeof d1,"one-hot run (only channel %d active, multitone%s) layout=%s Fs=%d app=%s dur=%.1fms bitrate=%dx%d(level %d) complexity=%d VBR format=%s",k,(c.lay==1&&k==5)?" -> LFE tones":"",LAYN[c.lay],fs,APPN[c.app],durx2/2.0,nch,perch,c.lv,CPLX[c.cpi],FMTN[f1]);
          if (r1.err){ mc_fail("roundtrip_error:ms","%s: create/ctl/encode/decode failed (stage %d)",d1,r1.err); break; }
          ein=chan_energy(X[k]+s0-r1.la,L);
@@ -525,17 +629,66 @@ static void ms_item(long it,void *ctx){
    }
 }
 
+/* ------------------------------------------------------------------ multistream / projection with a <=1-step history */
+typedef struct { int lay,fsi,duri,lv; hist h; } mhcfg;
+static int nMHFS,MHFSI[5],nMHDUR,MHDURI[9],nMHLV,MHLVI[3];
+static long mshist_items(void){ return 6L*nMHFS*nMHDUR*nMHLV*3*NSET*3; }
+static void mshist_decode(long it,mhcfg *c){
+   c->h.P=it%3; it/=3; c->h.S=it%NSET; it/=NSET; c->h.A=it%3; it/=3; c->lv=MHLVI[it%nMHLV]; it/=nMHLV; c->duri=MHDURI[it%nMHDUR]; it/=nMHDUR; c->fsi=MHFSI[it%nMHFS]; it/=nMHFS; c->lay=(int)it;
+}
+static void mshist_item(long it,void *ctx){
+   mhcfg c; mscfg b; int fs,durx2,nch,perch,fmt,rot,s0,lagl,lagh,k,j,cell,L; runinfo r; fid m; char desc[700]; const char *mt; unsigned mask,sharp=0; fid md; (void)ctx;
+   bufs_init(); mshist_decode(it,&c); fs=FSS[c.fsi]; durx2=DURX2[c.duri]; nch=LAYCH[c.lay]; perch=ms_perch_bps(durx2,c.lv);
+   b.lay=c.lay; b.fsi=c.fsi; b.app=c.h.A; b.duri=c.duri; b.lv=c.lv; b.cpi=2; b.cbr=0;
+   fmt=(int)(it%3); rot=(int)((it/7)%5);
+   mc_case("mshist_roundtrip","layout=%s Fs=%d create=%s then %s %s; dur=%.1fms bitrate=%dx%d format=%s rot=%d",LAYN[c.lay],fs,APPN[c.h.A],SETN[c.h.S],PLACEN[c.h.P],durx2/2.0,nch,perch,FMTN[fmt],rot);
+   run_ms(&b,fmt,rot,-1,&c.h,&r);
+   if (r.rejected) return;
+   snprintf(desc,sizeof desc,"layout=%s Fs=%d history: create(application=%s)%s, %s %s -> application now %s; dur=%.1fms bitrate=%dx%d(level %d) complexity=10 VBR format=%s family-rotation=%d [%s %s, %d packets, %ld bytes]",
+            LAYN[c.lay],fs,APPN[c.h.A],r.npre?", encode prefix":"",SETN[c.h.S],PLACEN[c.h.P],APPN[r.app_final],durx2/2.0,nch,perch,c.lv,FMTN[fmt],rot,modetag_of(r.modemask),BWN[r.minbw],r.npk,r.bytes);
+   if (r.err){ mc_fail("roundtrip_error:mshist","%s: create/ctl/encode/decode failed (stage %d)",desc,r.err); return; }
+   lookahead_stable(desc,&r);
+   s0=(int)(SKIP_SECONDS*fs); L=r.N-s0;
+   lagl=r.la-(r.la<fs/200?r.la:fs/200); lagh=r.la+fs*6/1000;
+   mask=(1u<<nch)-1; if (c.lay==1) mask&=~(1u<<5);
+   analyse(nch,mask,r.N,fs,r.la,s0,lagl,lagh,r.minbw,&m);
+   for(k=0;k<nch;k++) if ((mask>>k&1) && ((k+rot)%5==1||(k+rot)%5==3||(k+rot)%5==4)) sharp|=1u<<k;
+   analyse_delay(nch,sharp,r.N,r.la,s0,lagl,lagh,&md); m.best=md.best; m.frac=md.frac; m.snr_best=md.snr_best; m.dsnr_la=md.dsnr_la;
+   mt=modetag_of(r.modemask);
+   cell=msh_cell(hkind_of(&c.h),c.lay,r.app_final,r.minbw);
+   if (dump){ char l[1000]; snprintf(l,sizeof l,"D mshist it=%ld %s | la=%d best=%d frac=%.3f snr_la=%.2f snr_best=%.2f seg=%.2f bgain=%.2f bloss=%.2f nb=%d cell=%d\n",it,desc,m.la,m.best,m.frac,m.snr_la,m.snr_best,m.seg,m.bgain,m.bloss,m.nbands,cell); dumpline(l); }
+   judge(desc,cell,&m,fs,r.modemask,mt,2);
+   if (m.snr_best>0 && mc_set_add(cells_seen,mc_mix(mc_mix(cell,c.h.P),mc_mix(c.h.A,c.h.S)))){ MC_INC(c_dn);
+      if (mc_set_add(sample_classes,mc_mix(mc_mix(c.h.S,c.h.A),mc_mix(c.h.P,c.lay)))) mc_sample("%s -> lookahead=%d (after the run %d), correlation peak at lag %d (%.2f), SNR %.2f dB, segSNR %.2f dB",desc,m.la,r.la2,m.best,m.frac,m.snr_la,m.seg); }
+   /* routing / sign as in part ms; not under OPUS_SET_FORCE_CHANNELS(1), which asks the coupled streams to be coded as mono */
+   if (c.h.S!=S_FC1){ double ex[MAXCH]; MC_INC(c_ident_checked);
+      for(j=0;j<nch;j++) ex[j]=chan_energy(X[j]+s0-r.la,L);
+      for(k=0;k<nch;k++){ double ey=chan_energy(Y[k]+s0,L), bestr=0, own=0; int bj=-1;
+         for(j=0;j<nch;j++){ double rho=dotf(X[j]+s0-r.la,Y[k]+s0,L)/sqrt(ex[j]*ey+1e-30); if(j==k) own=rho; if(fabs(rho)>fabs(bestr)){bestr=rho;bj=j;} }
+         if (fabs(bestr)<0.5) continue;
+         if (bj!=k){ char sig[64]; snprintf(sig,sizeof sig,"ms_identity:routing:%s",c.lay>=3?"projection":"multistream"); mc_fail(sig,"%s: output channel %d carries input channel %d (rho %.3f) rather than its own input (rho %.3f)",desc,k,bj,bestr,own); break; }
+         if (!(own>0)){ char sig[64]; snprintf(sig,sizeof sig,"ms_identity:sign:%s",c.lay>=3?"projection":"multistream"); mc_fail(sig,"%s: output channel %d is the sign-inverted input channel %d (rho %.3f)",desc,k,k,own); break; }
+      }
+   }
+}
+
 /* ------------------------------------------------------------------ main */
 int main(int argc,char **argv){
    const char *mode; int i; long skipped;
    mc_init(argc,argv,"C04","ss");
-   mode=mc_arg_s("--mode","ss"); is_ms=!strcmp(mode,"ms"); MC.part=is_ms?"ms":"ss";
+   mode=mc_arg_s("--mode","ss"); kind=!strcmp(mode,"ms")?1:!strcmp(mode,"hist")?2:!strcmp(mode,"mshist")?3:0; MC.part=kind==1?"ms":kind==2?"hist":kind==3?"mshist":"ss";
    dump=(int)mc_arg("--dump",0); calib_path=mc_arg_s("--calibrate",NULL); calibrating=calib_path!=NULL;
    if (MC.tier){ nDUR=9; for(i=0;i<9;i++) DURI[i]=i; nCPX=3; for(i=0;i<3;i++) CPXI[i]=i; SIG_SECONDS=1.5; SKIP_SECONDS=0.25; PRE_SECONDS=0.0;
-      nMSFS=5; for(i=0;i<5;i++) MSFSI[i]=i; nMSDUR=9; for(i=0;i<9;i++) MSDURI[i]=i; nMSCPX=3; for(i=0;i<3;i++) MSCPXI[i]=i; }
+      nMSFS=5; for(i=0;i<5;i++) MSFSI[i]=i; nMSDUR=9; for(i=0;i<9;i++) MSDURI[i]=i; nMSCPX=3; for(i=0;i<3;i++) MSCPXI[i]=i;
+      /* histories: all rates, frames {2.5,10,20,60} ms, levels {0,2,4}, all six families; ms: {16,48} kHz, {5,20} ms, levels {0,2} */
+      nHFS=5; for(i=0;i<5;i++) HFSI[i]=i; nHDUR=4; HDURI[0]=0; HDURI[1]=2; HDURI[2]=3; HDURI[3]=5; nHLV=3; HLVI[0]=0; HLVI[1]=2; HLVI[2]=4; nHFAM=6; for(i=0;i<6;i++) HFAM[i]=i;
+      nMHFS=2; MHFSI[0]=2; MHFSI[1]=4; nMHDUR=2; MHDURI[0]=1; MHDURI[1]=3; nMHLV=2; MHLVI[0]=0; MHLVI[1]=2; }
    else { static const int d[6]={0,1,2,3,5,8}; nDUR=6; for(i=0;i<6;i++) DURI[i]=d[i]; nCPX=2; CPXI[0]=0; CPXI[1]=2; SIG_SECONDS=0.6; SKIP_SECONDS=0.16; PRE_SECONDS=0.5;
-      nMSFS=2; MSFSI[0]=2; MSFSI[1]=4; nMSDUR=5; { static const int dm[5]={0,1,2,3,5}; for(i=0;i<5;i++) MSDURI[i]=dm[i]; } nMSCPX=1; MSCPXI[0]=2; }
-   ncells=is_ms?MS_CELLS:SS_CELLS;
+      nMSFS=2; MSFSI[0]=2; MSFSI[1]=4; nMSDUR=5; { static const int dm[5]={0,1,2,3,5}; for(i=0;i<5;i++) MSDURI[i]=dm[i]; } nMSCPX=1; MSCPXI[0]=2;
+      /* histories: {16,48} kHz, frames {5,20,60} ms, levels {0,3}, families {multitone, sweep, band noise, clicks}; ms: 48 kHz, 20 ms, level 1 */
+      nHFS=2; HFSI[0]=2; HFSI[1]=4; nHDUR=3; HDURI[0]=1; HDURI[1]=3; HDURI[2]=5; nHLV=2; HLVI[0]=0; HLVI[1]=3; nHFAM=4; HFAM[0]=F_MULTI; HFAM[1]=F_SWEEP; HFAM[2]=F_BANDN; HFAM[3]=F_CLICKS;
+      nMHFS=1; MHFSI[0]=4; nMHDUR=1; MHDURI[0]=3; nMHLV=1; MHLVI[0]=1; }
+   ncells=kind==0?SS_CELLS:kind==1?MS_CELLS:kind==2?HIST_CELLS:MSH_CELLS;
    CAL=mc_shared(sizeof(cellv)*MAXCELLS);
    for(i=0;i<MAXCELLS;i++){ CAL[i].snr=CAL[i].seg=1000000; CAL[i].bgain=CAL[i].bloss=-1000000; CAL[i].n=0; }
    thr_load();
@@ -543,9 +696,10 @@ int main(int argc,char **argv){
    c_delay_checked=mc_counter("delay_clause_checked"); c_delay_exact=mc_counter("delay_clause_checked_exact_to_the_sample"); c_delay_gated=mc_counter("delay_clause_skipped_snr_below_6dB"); c_silkpath=mc_counter("delay_checked_with_silk_in_path");
    c_fid_checked=mc_counter("fidelity_bounds_checked"); c_ident_checked=mc_counter("channel_identity_checked"); c_onehot=mc_counter("onehot_runs");
    c_fallback=mc_counter("cells_without_exact_calibration");
+   c_rejected=mc_counter("history_ctl_rejected_not_run"); c_la_requery=mc_counter("lookahead_requeried_after_run");
    cells_seen=mc_set_new(16); sample_classes=mc_set_new(12);
-   mc_info("mode=%s tier=%s signal %.2f s (generator pre-advanced %.2f s), analysed from %.2f s; %ld items%s",mode,MC.tier?"thorough":"quick",SIG_SECONDS,PRE_SECONDS,SKIP_SECONDS,is_ms?ms_items():ss_items(),calibrating?" [CALIBRATING]":"");
-   skipped = is_ms? mc_par(ms_items(),ms_item,NULL) : mc_par(ss_items(),ss_item,NULL);
+   mc_info("mode=%s tier=%s signal %.2f s (generator pre-advanced %.2f s), analysed from %.2f s; %ld items%s",mode,MC.tier?"thorough":"quick",SIG_SECONDS,PRE_SECONDS,SKIP_SECONDS,kind==0?ss_items():kind==1?ms_items():kind==2?hist_items():mshist_items(),calibrating?" [CALIBRATING]":"");
+   skipped = kind==0? mc_par(ss_items(),ss_item,NULL) : kind==1? mc_par(ms_items(),ms_item,NULL) : kind==2? mc_par(hist_items(),hist_item,NULL) : mc_par(mshist_items(),mshist_item,NULL);
    { long used=0; for(i=0;i<ncells;i++) if(CAL[i].n>0) used++; *mc_counter("threshold_cells_exercised")=used; }
    if (calibrating){ if (skipped||MC.only_item>=0) mc_info("calibration NOT written: the grid was not completed"); else cal_write(); }
    return mc_finish();
